@@ -35,6 +35,21 @@ type c04Entry struct {
 	seeds func(rng *RNG) [][]byte
 	// the external NDR decoder (jcmturner/rpc) allocates from unchecked counts: known finding
 	ndr bool
+	// inputs that are run as they are, before the mutations of the seeds (boundary values that a mutation
+	// is unlikely to produce)
+	corpus func() [][]byte
+}
+
+// c04Inputs: every input of an entry's batch, in the order the child runs them
+func c04Inputs(e c04Entry, rng *RNG, n int) [][]byte {
+	var out [][]byte
+	if e.corpus != nil {
+		out = append(out, e.corpus()...)
+	}
+	for _, sd := range e.seeds(rng) {
+		out = append(out, c04Mutate(rng, sd, n)...)
+	}
+	return out
 }
 
 var c04Key18 = types.EncryptionKey{KeyType: 18, KeyValue: []byte("0123456789abcdef0123456789abcdef")}
@@ -133,7 +148,7 @@ func c04Entries(m *Model) []c04Entry {
 		}},
 		{name: "messages.ASRep.Unmarshal+DecryptEncPart", seeds: repSeeds(false), run: func(b []byte) {
 			var r messages.ASRep
-			if r.Unmarshal(b) == nil {
+			if r.Unmarshal(b) == nil && !slowButBounded(r.PAData) {
 				cr := credentials.New(c09User, c09Realm).WithPassword("x")
 				r.DecryptEncPart(cr)
 			}
@@ -153,7 +168,9 @@ func c04Entries(m *Model) []c04Entry {
 						pa.GetETypeInfo()
 						pa.GetETypeInfo2()
 					}
-					crypto.GetKeyFromPassword("pw", types.PrincipalName{NameString: []string{"u"}}, "R", 18, pas)
+					if !slowButBounded(pas) {
+						crypto.GetKeyFromPassword("pw", types.PrincipalName{NameString: []string{"u"}}, "R", 18, pas)
+					}
 				}
 			}
 		}},
@@ -164,9 +181,21 @@ func c04Entries(m *Model) []c04Entry {
 				out = append(out, b)
 			}
 			return out
+		}, corpus: func() [][]byte {
+			// iteration counts on and around the limits, for each etype that takes one ("00000000" stands for
+			// 2^32 in RFC 3962); the largest count the library accepts (2^24, some 20 s of work) is left out
+			var out [][]byte
+			for _, et := range []int32{18, 17, 19, 20} {
+				for _, p := range [][]byte{{0, 0, 0, 0}, {0, 0, 0, 1}, {0, 1, 0, 0}, {1, 0, 0, 1}, {0x7f, 0xff, 0xff, 0xff}, {0x80, 0, 0, 0}, {0xff, 0xff, 0xff, 0xff}} {
+					i2, _ := asn1.Marshal(types.ETypeInfo2{types.ETypeInfo2Entry{EType: et, Salt: "s", S2KParams: p}})
+					b, _ := asn1.Marshal(types.PADataSequence{{PADataType: 19, PADataValue: i2}})
+					out = append(out, b)
+				}
+			}
+			return out
 		}, run: func(b []byte) {
 			var pas types.PADataSequence
-			if pas.Unmarshal(b) == nil {
+			if pas.Unmarshal(b) == nil && !slowButBounded(pas) {
 				crypto.GetKeyFromPassword("pw", types.PrincipalName{NameString: []string{"u"}}, "R", 18, pas)
 			}
 		}},
@@ -288,7 +317,7 @@ func c04Entries(m *Model) []c04Entry {
 			}
 		}},
 		{name: "credentials.CCache.Unmarshal", seeds: func(rng *RNG) [][]byte {
-			b := ccacheWithKey(c04Key18)
+			b := ccacheWithKey(c04Key18, true)
 			v3 := append([]byte{}, b...)
 			return [][]byte{b, v3}
 		}, run: func(b []byte) {
@@ -335,6 +364,29 @@ func c04Entries(m *Model) []c04Entry {
 	}
 }
 
+// slowButBounded: the hints carry an iteration count the library accepts (at most 2^24, proved in
+// Krb.C04.iterations_bounded) but that takes seconds to work through; such inputs are within the bound the
+// property asks for and are left out of the run to keep it short.
+func slowButBounded(pas types.PADataSequence) bool {
+	for _, pa := range pas {
+		if pa.PADataType != 19 {
+			continue
+		}
+		var e2 types.ETypeInfo2
+		if e2.Unmarshal(pa.PADataValue) != nil {
+			continue
+		}
+		for _, e := range e2 {
+			if len(e.S2KParams) == 4 {
+				if n := binary.BigEndian.Uint32(e.S2KParams); n > 1<<17 && n <= 1<<24 {
+					return true
+				}
+			}
+		}
+	}
+	return false
+}
+
 func keyFor(et int32) []byte {
 	return randKey(NewRNG(uint64(et)), et)
 }
@@ -345,12 +397,41 @@ func c04Mutate(rng *RNG, seed []byte, n int) [][]byte {
 	out = append(out, nil, []byte{}, append([]byte{}, seed...))
 	// every truncation of short seeds, a sample of long ones
 	step := 1
-	if len(seed) > 600 {
-		step = len(seed) / 600
+	if len(seed) > 400 {
+		step = len(seed) / 400
 	}
 	for i := 0; i < len(seed); i += step {
 		out = append(out, append([]byte{}, seed[:i]...))
 	}
+	// systematically over the head of the seed (where the counts and lengths of the first record sit) and its
+	// tail: each byte, 2-byte and 4-byte field set to its boundary values
+	pos := []int{}
+	for p := 0; p < len(seed) && p < 80; p++ {
+		pos = append(pos, p)
+	}
+	for p := len(seed) - 12; p < len(seed); p++ {
+		if p >= 80 {
+			pos = append(pos, p)
+		}
+	}
+	for _, p := range pos {
+		for _, pat := range [][]byte{{0}, {0xff}, {0x80}, {0x7f}, {0xff, 0xff}, {0x80, 0}, {0x7f, 0xff}, {0xff, 0xff, 0xff, 0xff}, {0x7f, 0xff, 0xff, 0xff}, {0x80, 0, 0, 0}, {0, 0, 0, 0}} {
+			c := append([]byte{}, seed...)
+			same := true
+			for k, x := range pat {
+				if p+k < len(c) {
+					if c[p+k] != x {
+						same = false
+					}
+					c[p+k] = x
+				}
+			}
+			if !same {
+				out = append(out, c)
+			}
+		}
+	}
+	n += len(out)
 	for len(out) < n {
 		c := append([]byte{}, seed...)
 		if len(c) == 0 {
@@ -437,12 +518,13 @@ func init() {
 		maxRatio := 0.0
 		var fails []string
 		seenKinds := map[string]int{}
-		for _, sd := range e.seeds(rng) {
-			for _, in := range c04Mutate(rng, sd, n) {
+		{
+			for _, in := range c04Inputs(e, rng, n) {
 				count++
 				if count-1 < from || count-1 >= to {
 					continue
 				}
+				fmt.Printf("SBXQ %d\n", count-1) // should this input kill the process, the parent knows which one it was
 				var ms0, ms1 runtime.MemStats
 				runtime.ReadMemStats(&ms0)
 				p := Protect(func() { e.run(in) })
@@ -452,6 +534,7 @@ func init() {
 					if seenKinds[k] < 2 && len(fails) < 12 {
 						seenKinds[k]++
 						fails = append(fails, fmt.Sprintf("panic~%d~%s~%s", count-1, X(in), strings.ReplaceAll(cut(p, 160), " ", "_")))
+						fmt.Printf("SBXP %s\n", fails[len(fails)-1]) // reported at once: a later input may kill the process
 					}
 					continue
 				}
@@ -464,6 +547,7 @@ func init() {
 					if seenKinds["alloc"] < 2 && len(fails) < 12 {
 						seenKinds["alloc"]++
 						fails = append(fails, fmt.Sprintf("alloc~%d~%s~%d", count-1, X(in), int64(alloc)))
+						fmt.Printf("SBXP %s\n", fails[len(fails)-1])
 					}
 				}
 			}
@@ -496,93 +580,86 @@ func TestC04(t *testing.T) {
 	if x := os.Getenv("VERIF_C04_ONLY"); x != "" {
 		fmt.Sscan(x, &onlyE)
 	}
+	// entries run side by side (each batch is its own memory-limited child process)
+	var ewg sync.WaitGroup
+	esem := make(chan struct{}, 6)
 	for idx, e := range entries {
 		if onlyE >= 0 && idx != onlyE {
 			continue
 		}
-		for r := 0; r < rounds; r++ {
-			sb := StartSandbox(t)
-			seed := Seed()*131 + uint64(r)
-			t0 := time.Now()
-			ans := sb.Call(fmt.Sprintf("c04.batch %d %d %d", idx, seed, n), 120*time.Second)
-			if os.Getenv("VERIF_C04_ONLY") != "" || os.Getenv("VERIF_C04_TRACE") != "" {
-				fmt.Printf("c04 %2d %-55s %6.1fs %s\n", idx, e.name, time.Since(t0).Seconds(), cut(ans, 200))
-			}
-			sb.Close()
-			v.Case(fmt.Sprintf("%s/%d", e.name, r), "entry "+e.name+" -> "+strings.Fields(ans + " -")[0])
-			f := strings.Fields(ans)
-			switch {
-			case len(f) > 0 && f[0] == "ok":
-				if idx == 0 && r == 0 {
-					v.Sample(e.name + " " + ans)
+		ewg.Add(1)
+		esem <- struct{}{}
+		go func(idx int, e c04Entry) {
+			defer func() { <-esem; ewg.Done() }()
+			for r := 0; r < rounds; r++ {
+				sb := StartSandbox(t)
+				seed := Seed()*131 + uint64(r)
+				t0 := time.Now()
+				ans := sb.Call(fmt.Sprintf("c04.batch %d %d %d", idx, seed, n), 120*time.Second)
+				if os.Getenv("VERIF_C04_ONLY") != "" || os.Getenv("VERIF_C04_TRACE") != "" {
+					fmt.Printf("c04 %2d %-55s %6.1fs %s\n", idx, e.name, time.Since(t0).Seconds(), cut(ans, 200))
 				}
-				continue
-			case len(f) >= 3 && f[0] == "fail":
-				c04Report(v, e, seed, f[2:])
-			default:
-				// the child died (out of memory) or stalled: bisect for the input, report it, and go on with the
-				// inputs after it (up to 8 culprits per batch)
-				probe := func(a, b int) string {
-					sb2 := StartSandbox(t)
-					defer sb2.Close()
-					return sb2.Call(fmt.Sprintf("c04.batch %d %d %d %d %d", idx, seed, n, a, b), 120*time.Second)
-				}
-				total := 1 << 20
-				if a0 := probe(1<<29, 1<<29+1); strings.HasPrefix(a0, "ok") {
-					fmt.Sscanf(a0, "ok %d", &total)
-				}
-				start := 0
-				for round := 0; round < 8 && start < total; round++ {
-					rest := probe(start, total)
-					if rf := strings.Fields(rest); len(rf) > 0 && rf[0] == "ok" {
-						break
-					} else if len(rf) >= 3 && rf[0] == "fail" {
-						c04Report(v, e, seed, rf[2:])
-						break
+				sb.Close()
+				v.Case(fmt.Sprintf("%s/%d", e.name, r), "entry "+e.name+" -> "+strings.Fields(ans + " -")[0])
+				f := strings.Fields(ans)
+				switch {
+				case len(f) > 0 && f[0] == "ok":
+					if idx == 0 && r == 0 {
+						v.Sample(e.name + " " + ans)
 					}
-					lo, hi := start, total
-					kind := rest
-					for hi-lo > 1 {
-						mid := (lo + hi) / 2
-						if a1 := probe(lo, mid); strings.HasPrefix(a1, "ok") || strings.HasPrefix(a1, "fail") {
-							if strings.HasPrefix(a1, "fail") {
-								c04Report(v, e, seed, strings.Fields(a1)[2:])
-							}
-							lo = mid
-						} else {
-							hi = mid
-							kind = a1
+					continue
+				case len(f) >= 3 && f[0] == "fail":
+					c04Report(v, e, seed, f[2:])
+				default:
+					// the child died (out of memory) or stalled: the input it had started last is the culprit; it is
+					// confirmed on its own in a fresh child and reported, what the child had found before it died is
+					// reported too, and the batch goes on with the inputs after it (up to 8 culprits per batch)
+					probe := func(a, b int) (string, string, []string) {
+						sb2 := StartSandbox(t)
+						defer sb2.Close()
+						r := sb2.Call(fmt.Sprintf("c04.batch %d %d %d %d %d", idx, seed, n, a, b), 120*time.Second)
+						return r, sb2.Last, sb2.Partial
+					}
+					inputs := c04Inputs(e, NewRNG(seed), n)
+					total := len(inputs)
+					rest, last, partial := ans, sb.Last, sb.Partial
+					start := 0
+					for round := 0; round < 8 && start < total; round++ {
+						if round > 0 {
+							rest, last, partial = probe(start, total)
 						}
-					}
-					culprit, inputHex := fmt.Sprint(lo), ""
-					a1 := probe(lo, lo+1)
-					r2 := NewRNG(seed)
-					cnt := 0
-					for _, sd := range e.seeds(r2) {
-						for _, in := range c04Mutate(r2, sd, n) {
-							if cnt == lo {
-								inputHex = X(in)
-							}
-							cnt++
+						if rf := strings.Fields(rest); len(rf) > 0 && rf[0] == "ok" {
+							break
+						} else if len(rf) >= 3 && rf[0] == "fail" {
+							c04Report(v, e, seed, rf[2:])
+							break
 						}
+						c04Report(v, e, seed, partial)
+						lo := -1
+						fmt.Sscan(last, &lo)
+						if lo < start || lo >= total {
+							v.Violate("failing-input", fmt.Sprintf("c04:%s:%s", strings.Fields(rest + " -")[0], e.name), "the batch died without saying which input it was working on", map[string]string{"entry": e.name, "batch": rest, "seed": fmt.Sprint(seed)})
+							break
+						}
+						start = lo + 1
+						a1, _, _ := probe(lo, lo+1)
+						if kf := strings.Fields(a1); len(kf) >= 3 && kf[0] == "fail" {
+							c04Report(v, e, seed, kf[2:])
+							continue
+						} else if strings.HasPrefix(a1, "ok") {
+							continue // harmless on its own: the death was the accumulated effect of earlier inputs
+						}
+						sig := fmt.Sprintf("c04:%s:%s", strings.Fields(a1 + " -")[0], e.name)
+						if e.ndr {
+							sig = "c04:ndr:" + e.name
+						}
+						v.Violate("failing-input", sig, "an input makes the entry point exhaust memory or stall", map[string]string{"entry": e.name, "batch": rest, "input-index": fmt.Sprint(lo), "input": X(inputs[lo]), "single": a1, "seed": fmt.Sprint(seed)})
 					}
-					start = lo + 1
-					if kf := strings.Fields(a1); len(kf) >= 3 && kf[0] == "fail" {
-						c04Report(v, e, seed, kf[2:])
-						continue
-					} else if strings.HasPrefix(a1, "ok") {
-						continue // not reproducible on its own
-					}
-					kind = a1
-					sig := fmt.Sprintf("c04:%s:%s", strings.Fields(kind + " -")[0], e.name)
-					if e.ndr {
-						sig = "c04:ndr:" + e.name
-					}
-					v.Violate("failing-input", sig, "an input makes the entry point exhaust memory or stall", map[string]string{"entry": e.name, "batch": ans, "input-index": culprit, "input": inputHex, "single": kind, "seed": fmt.Sprint(seed)})
 				}
 			}
-		}
+		}(idx, e)
 	}
+	ewg.Wait()
 	// KDC reply handling: a peer that accepts the connection and then stalls in various ways must not hold
 	// the caller for longer than the library's own deadlines (5 s per attempt)
 	{
@@ -698,6 +775,51 @@ func TestC04(t *testing.T) {
 		if bad != "" {
 			v.Violate("failing-input", "c04:kadmin-model", bad, map[string]string{"input": X(b), "go-error": fmt.Sprint(err), "model": mo})
 			break
+		}
+	}
+	// UPN_DNS_INFO: 16-bit offsets and lengths against buffers on both sides of 64 KiB
+	{
+		sizes := []int{12, 13, 100, 65535, 65536, 65537, 70000, 131072}
+		vals := []int{0, 1, 2, 11, 12, 13, 99, 100, 0x7fff, 0x8000, 0xfffe, 0xffff}
+		r0 := NewRNG(Seed() + 99)
+		for i := 0; i < 1500; i++ {
+			n := sizes[r0.Intn(len(sizes))]
+			f := [4]int{}
+			for j := range f {
+				f[j] = vals[r0.Intn(len(vals))]
+				if r0.Intn(4) == 0 {
+					f[j] = r0.Intn(65536)
+				}
+			}
+			if i < len(sizes) {
+				n, f = sizes[i], [4]int{1, 0xffff, 0, 0} // a one-byte field at the last 16-bit offset
+			}
+			b := make([]byte, n)
+			for j, x := range f {
+				binary.LittleEndian.PutUint16(b[2*j:], uint16(x))
+			}
+			var err error
+			var k pac.UPNDNSInfo
+			p := Protect(func() { err = k.Unmarshal(b) })
+			mo := m.Ask(fmt.Sprintf("tt.upn %d %d %d %d %d", n, f[0], f[1], f[2], f[3]))
+			v.Case(fmt.Sprintf("upn/%d/%v", n, f), "UPN_DNS_INFO slicing vs model -> "+strings.Fields(mo + " -")[0])
+			bad := ""
+			switch {
+			case p != "":
+				bad = "UPNDNSInfo.Unmarshal panics: " + p
+			case strings.HasPrefix(mo, "crash"):
+				bad = "the model of the slicing crashes where Go does not"
+			case strings.HasPrefix(mo, "err") != (err != nil):
+				bad = "Go and the model disagree on whether the fields lie inside the buffer"
+			}
+			if bad != "" {
+				kind := "failing-input"
+				if p == "" {
+					kind = "correspondence"
+				}
+				v.Violate(kind, "c04:upn-model", bad, map[string]string{"size": fmt.Sprint(n), "upnlen,upnoff,dnslen,dnsoff": fmt.Sprint(f), "go-error": fmt.Sprint(err), "model": mo})
+				break
+			}
 		}
 	}
 	v.Note("entry points: " + strings.Join(names, "; "))
